@@ -102,6 +102,10 @@ func (k Keeper) RecvPacket(
 		return errorsmod.Wrap(clienttypes.ErrClientNotFound, fromChain)
 	}
 
+	if status := targetClient.Status(ctx, k.clientKeeper.ClientStore(ctx, fromChain), k.cdc); status != exported.Active {
+		return errorsmod.Wrapf(clienttypes.ErrClientNotActive, "client (%s) status is %s", fromChain, status)
+	}
+
 	commitment := types.CommitPacket(packet)
 	// verify that the counterparty did commit to sending this packet
 	if err := targetClient.VerifyPacketCommitment(ctx,
@@ -275,6 +279,10 @@ func (k Keeper) AcknowledgePacket(
 		return errorsmod.Wrap(clienttypes.ErrClientNotFound, fromChain)
 	}
 
+	if status := clientState.Status(ctx, k.clientKeeper.ClientStore(ctx, fromChain), k.cdc); status != exported.Active {
+		return errorsmod.Wrapf(clienttypes.ErrClientNotActive, "client (%s) status is %s", fromChain, status)
+	}
+
 	ackCommitment := types.CommitAcknowledgement(acknowledgement)
 	if err := clientState.VerifyPacketAcknowledgement(ctx,
 		k.clientKeeper.ClientStore(ctx, fromChain), k.cdc, proofHeight,
@@ -409,6 +417,10 @@ func (k Keeper) RecvCleanPacket(
 
 	if !found {
 		return errorsmod.Wrap(clienttypes.ErrClientNotFound, fromChain)
+	}
+
+	if status := targetClient.Status(ctx, k.clientKeeper.ClientStore(ctx, fromChain), k.cdc); status != exported.Active {
+		return errorsmod.Wrapf(clienttypes.ErrClientNotActive, "client (%s) status is %s", fromChain, status)
 	}
 
 	if err := targetClient.VerifyPacketCleanCommitment(ctx,
